@@ -11,7 +11,7 @@ namespace Carapace.Spec.Pflag
 open Carapace Carapace.Model
 
 inductive Kind where
-  | bool | count | string | stringSlice | optString | stringArray | ipNetSlice
+  | bool | count | string | stringSlice | optString | stringArray | ipNetSlice | boolSlice
   deriving DecidableEq, Repr, Inhabited
 
 structure PFlag where
@@ -54,6 +54,8 @@ def valueOk (f : PFlag) (v : Str) : Bool :=
   | .stringSlice => !v.elem '"'
   -- the two networks the generators use; any other text they produce is not a CIDR
   | .ipNetSlice => v.isEmpty || v == "10.0.0.0/8".toList || v == "10.1.0.0/16".toList
+  -- a CSV record of booleans (the empty text is no record at all: accepted, adds nothing)
+  | .boolSlice => v.isEmpty || (!v.elem '"' && (Str.splitOnChar ',' v).all parseBoolOk)
   | _ => true
 
 structure Parsed where
